@@ -86,7 +86,9 @@ func checkCDense(c CCase) *vk.Failure {
 	if c.Op == "Copy" && expect == expMustPanic {
 		// Copier: copies from an aliasing source unless it is transposed.
 		expect = expMustNot
-		if c.Tr != 0 {
+		if c.Tr != 0 || strideRel == "mixed" {
+			// transposed aliasing sources are documented to panic; with
+			// different strides the general rule (region panic) is accepted.
 			expect = expEither
 		}
 	}
